@@ -1,1 +1,247 @@
-From TV Require Import Base.
+(* Theorems about the whole-simulation model (Model/Sim.v). *)
+From TV Require Import Base Model.Wiring Model.Ticker Model.Component Model.Sim.
+Open Scope Z_scope.
+
+Section S.
+Variable cfg : config.
+Variable devf : devfun.
+
+(* the level ids and the devices in the subtree of a level, devices in update order *)
+Fixpoint levels_below (fuel : nat) (lv : positive) : list positive :=
+  match fuel with
+  | O => []
+  | S f => lv :: flat_map (fun ck : comp * ckind => match snd ck with KDev => [] | KSys lv' => levels_below f lv' end)
+                          (l_order (level_of cfg lv))
+  end.
+
+Fixpoint devices_below (fuel : nat) (lv : positive) : list comp :=
+  match fuel with
+  | O => []
+  | S f => flat_map (fun ck : comp * ckind => match snd ck with KDev => [fst ck] | KSys lv' => devices_below f lv' end)
+                    (l_order (level_of cfg lv))
+  end.
+
+(* the nesting is not cut off by the fuel *)
+Fixpoint deep_enough (fuel : nat) (lv : positive) : Prop :=
+  match fuel with
+  | O => False
+  | S f => forall c lv', In (c, KSys lv') (l_order (level_of cfg lv)) -> deep_enough f lv'
+  end.
+
+Definition obs_comp (o : obs) : comp := fst (fst o).
+Definition obs_time (o : obs) : Z := snd (fst o).
+
+(* pseudo-component ids are not used by real components *)
+Definition real_ids (lv : positive) : Prop :=
+  forall c k, In (c, k) (l_order (level_of cfg lv)) -> c <> ext_id /\ c <> exp_id.
+
+Lemma dev_update_obs s c time chg :
+  let '(s', ch, ca, o) := dev_update devf s c time chg in
+  obs_comp o = c /\ obs_time o = time /\ s_ticked s' = s_ticked s.
+Proof.
+  unfold dev_update. destruct (devf c _ time _) as [outs ca]. simpl. auto.
+Qed.
+
+Lemma NoDup_app_l {A} (l1 l2 : list A) : NoDup (l1 ++ l2) -> NoDup l1.
+Proof.
+  induction l1 as [|x t IH]; simpl; intros H; [constructor|]. inversion H; subst. constructor.
+  - intros Hx. apply H2. apply in_or_app. left. exact Hx.
+  - apply IH. exact H3.
+Qed.
+Lemma NoDup_app_r {A} (l1 l2 : list A) : NoDup (l1 ++ l2) -> NoDup l2.
+Proof. induction l1 as [|x t IH]; simpl; intros H; [exact H|]. inversion H; subst. apply IH. exact H3. Qed.
+Lemma NoDup_app_disjoint {A} (l1 l2 : list A) x : NoDup (l1 ++ l2) -> In x l1 -> ~ In x l2.
+Proof.
+  induction l1 as [|y t IH]; simpl; intros H Hx Hx2; [destruct Hx|]. inversion H; subst.
+  destruct Hx as [->|Hx]; [apply H2; apply in_or_app; right; exact Hx2 | apply (IH H3 Hx Hx2)].
+Qed.
+
+Definition sub_levels (f : nat) (ck : comp * ckind) : list positive :=
+  match snd ck with KDev => [] | KSys lv' => levels_below f lv' end.
+Definition sub_devices (f : nat) (ck : comp * ckind) : list comp :=
+  match snd ck with KDev => [fst ck] | KSys lv' => devices_below f lv' end.
+
+(* the statement about the first tick of a (nested) level *)
+Definition FirstTick (f : nat) (inner : positive -> Z -> values -> sstate -> sstate * values * option Z * list obs) : Prop :=
+  forall lv time chg s,
+    deep_enough f lv -> NoDup (levels_below f lv) ->
+    (forall x, In x (levels_below f lv) -> ~ In x (s_ticked s)) ->
+    (forall x, In x (levels_below f lv) -> real_ids x) ->
+    let '(s', _, _, ob) := inner lv time chg s in
+    map obs_comp ob = devices_below f lv /\
+    (forall o, In o ob -> obs_time o = time) /\
+    (forall x, In x (s_ticked s') <-> In x (levels_below f lv) \/ In x (s_ticked s)).
+
+Lemma set_wake_ticked s lv w : s_ticked (set_wake s lv w) = s_ticked s.
+Proof. reflexivity. Qed.
+
+(* processing one real component that is a root of the tick *)
+Lemma tick_step_root inner lv conns time roots ext a c k :
+  memb c roots = true -> c <> ext_id -> c <> exp_id ->
+  let r := match k with
+           | KDev => let '(s1, ch, ca, o) := dev_update devf (ta_s a) c time (get_d c (ta_in a)) in (s1, ch, ca, [o])
+           | KSys lv' => inner lv' time (get_d c (ta_in a)) (ta_s a)
+           end in
+  let '(s1, ch, ca, ob) := r in
+  ta_obs (tick_step devf inner lv conns time roots ext a (c, k)) = ta_obs a ++ ob /\
+  s_ticked (ta_s (tick_step devf inner lv conns time roots ext a (c, k))) = s_ticked s1 /\
+  ta_out (tick_step devf inner lv conns time roots ext a (c, k)) = ta_out a.
+Proof.
+  intros Hr He Hx. unfold tick_step. cbn [fst snd]. unfold in_extent. rewrite Hr. cbn [orb]. rewrite orb_true_r.
+  assert (E1 : Pos.eqb c ext_id = false) by (apply Pos.eqb_neq; exact He).
+  assert (E2 : Pos.eqb c exp_id = false) by (apply Pos.eqb_neq; exact Hx).
+  rewrite E1, E2.
+  destruct k as [|lv'].
+  - destruct (dev_update devf (ta_s a) c time (get_d c (ta_in a))) as [[[s1 ch] ca] o]. destruct ca; simpl; auto.
+  - destruct (inner lv' time (get_d c (ta_in a)) (ta_s a)) as [[[s1 ch] ca] ob]. destruct ca; simpl; auto.
+Qed.
+
+(* the loop over the real components of a level, all of them roots (the first tick) *)
+Lemma first_tick_loop f inner lv conns time roots ext :
+  FirstTick f inner ->
+  forall cs a,
+    (forall c k, In (c, k) cs -> memb c roots = true /\ c <> ext_id /\ c <> exp_id) ->
+    (forall c lv', In (c, KSys lv') cs -> deep_enough f lv') ->
+    NoDup (flat_map (sub_levels f) cs) ->
+    (forall x, In x (flat_map (sub_levels f) cs) -> ~ In x (s_ticked (ta_s a))) ->
+    (forall x, In x (flat_map (sub_levels f) cs) -> real_ids x) ->
+    let a' := fold_left (tick_step devf inner lv conns time roots ext) cs a in
+    exists ob, ta_obs a' = ta_obs a ++ ob /\
+               map obs_comp ob = flat_map (sub_devices f) cs /\
+               (forall o, In o ob -> obs_time o = time) /\
+               (forall x, In x (s_ticked (ta_s a')) <-> In x (flat_map (sub_levels f) cs) \/ In x (s_ticked (ta_s a))) /\
+               ta_out a' = ta_out a.
+Proof.
+  intros HFT. induction cs as [|[c k] cs IH]; intros a Hroots Hdeep Hnd Hfresh Hreal; simpl.
+  - exists []. rewrite app_nil_r. repeat split; auto; try (intros o []); intuition.
+  - destruct (Hroots c k (or_introl eq_refl)) as [Hr [He Hx]].
+    assert (Hstep := tick_step_root inner lv conns time roots ext a c k Hr He Hx). simpl in Hstep.
+    set (a1 := tick_step devf inner lv conns time roots ext a (c, k)) in *.
+    simpl in Hnd, Hfresh, Hreal.
+    assert (Hnd1 : NoDup (sub_levels f (c, k))) by (eapply NoDup_app_l; exact Hnd).
+    assert (Hnd2 : NoDup (flat_map (sub_levels f) cs)) by (eapply NoDup_app_r; exact Hnd).
+    assert (Hdisj : forall x, In x (sub_levels f (c, k)) -> ~ In x (flat_map (sub_levels f) cs))
+      by (intros x Hx1; eapply NoDup_app_disjoint; eassumption).
+    (* what the head component contributes *)
+    assert (Hhead : exists ob1, ta_obs a1 = ta_obs a ++ ob1 /\ map obs_comp ob1 = sub_devices f (c, k) /\
+                      (forall o, In o ob1 -> obs_time o = time) /\
+                      (forall x, In x (s_ticked (ta_s a1)) <-> In x (sub_levels f (c, k)) \/ In x (s_ticked (ta_s a))) /\
+                      ta_out a1 = ta_out a).
+    { destruct k as [|lv'].
+      - assert (Hd := dev_update_obs (ta_s a) c time (get_d c (ta_in a))).
+        destruct (dev_update devf (ta_s a) c time (get_d c (ta_in a))) as [[[s1 ch] ca] o].
+        destruct Hd as [Hc [Ht Htk]]. destruct Hstep as [Ho [Hs Hout]].
+        exists [o]. split; [exact Ho|]. split; [simpl; rewrite Hc; reflexivity|].
+        split; [intros o' [<-|[]]; exact Ht|]. split; [|exact Hout].
+        intros x. rewrite Hs, Htk. unfold sub_levels. simpl. intuition.
+      - assert (HF := HFT lv' time (get_d c (ta_in a)) (ta_s a)).
+        destruct (inner lv' time (get_d c (ta_in a)) (ta_s a)) as [[[s1 ch] ca] ob1].
+        destruct Hstep as [Ho [Hs Hout]].
+        destruct HF as [H1 [H2 H3]].
+        + apply (Hdeep c lv'). left. reflexivity.
+        + exact Hnd1.
+        + intros x Hx1. apply Hfresh. apply in_or_app. left. exact Hx1.
+        + intros x Hx1. apply Hreal. apply in_or_app. left. exact Hx1.
+        + exists ob1. split; [exact Ho|]. split; [exact H1|]. split; [exact H2|]. split; [|exact Hout].
+          intros x. rewrite Hs. apply H3. }
+    destruct Hhead as [ob1 [Ho1 [Hc1 [Ht1 [Hk1 Hout1]]]]].
+    destruct (IH a1) as [ob2 [Ho2 [Hc2 [Ht2 [Hk2 Hout2]]]]].
+    + intros c' k' Hin. apply (Hroots c' k'). right. exact Hin.
+    + intros c' lv' Hin. apply (Hdeep c' lv'). right. exact Hin.
+    + exact Hnd2.
+    + intros x Hx2 Hx3. apply Hk1 in Hx3. destruct Hx3 as [Hx3|Hx3].
+      * apply (Hdisj x Hx3 Hx2).
+      * apply (Hfresh x); [apply in_or_app; right; exact Hx2 | exact Hx3].
+    + intros x Hx2. apply Hreal. apply in_or_app. right. exact Hx2.
+    + exists (ob1 ++ ob2). split; [rewrite Ho2, Ho1, app_assoc; reflexivity|].
+      split; [rewrite map_app, Hc1, Hc2; reflexivity|].
+      split; [intros o Hin; apply in_app_iff in Hin; destruct Hin; [apply Ht1 | apply Ht2]; assumption|].
+      split; [|rewrite Hout2; exact Hout1].
+      intros x. rewrite Hk2, Hk1, in_app_iff. intuition.
+Qed.
+
+(* the pseudo-components never produce an observation and never touch the device / level state *)
+Lemma tick_step_pseudo inner lv conns time roots ext a c k :
+  c = ext_id \/ c = exp_id ->
+  ta_obs (tick_step devf inner lv conns time roots ext a (c, k)) = ta_obs a /\
+  ta_s (tick_step devf inner lv conns time roots ext a (c, k)) = ta_s a.
+Proof.
+  intros Hc. unfold tick_step. cbn [fst snd].
+  destruct (in_extent conns roots (ta_touched a) c); [|auto].
+  destruct (nonempty (get_d c (ta_in a)) || memb c roots); [|auto].
+  destruct Hc as [-> | ->].
+  - rewrite Pos.eqb_refl. auto.
+  - change (Pos.eqb exp_id ext_id) with false. rewrite Pos.eqb_refl. auto.
+Qed.
+
+Lemma mark_ticked_In s lv x : In x (s_ticked (mark_ticked s lv)) <-> x = lv \/ In x (s_ticked s).
+Proof.
+  unfold mark_ticked. simpl. destruct (memb lv (s_ticked s)) eqn:E.
+  - apply memb_In in E. split; [auto|]. intros [->|H]; assumption.
+  - simpl. intuition.
+Qed.
+
+Lemma first_tick_all f : FirstTick f (on_tick_level cfg devf f).
+Proof.
+  induction f as [|f IH]; intros lv time chg s Hdeep Hnd Hfresh Hreal; [destruct Hdeep|].
+  cbn [on_tick_level].
+  assert (Hlv : ~ In lv (s_ticked s)) by (apply Hfresh; simpl; left; reflexivity).
+  assert (Hfirst : memb lv (s_ticked s) = false) by (apply memb_false; exact Hlv).
+  rewrite Hfirst. cbn [negb].
+  set (l := level_of cfg lv).
+  set (roots := int_of s lv ++ map fst (filter (fun e : comp * Z => snd e <=? time) (wake_of s lv)) ++ [ext_id] ++ map fst (l_order l) ++ [exp_id]).
+  set (s1 := log_tick (mark_ticked (set_int (set_wake s lv (filter (fun e : comp * Z => negb (snd e <=? time)) (wake_of s lv))) lv []) lv) lv time roots).
+  unfold tick_with. fold l. unfold all_of. cbn [fold_left]. rewrite fold_left_app. cbn [fold_left].
+  set (a0 := {| ta_s := s1; ta_in := []; ta_touched := []; ta_out := []; ta_obs := [] |}).
+  set (a1 := tick_step devf (on_tick_level cfg devf f) lv (l_conns l) time roots chg a0 (ext_id, KDev)).
+  destruct (tick_step_pseudo (on_tick_level cfg devf f) lv (l_conns l) time roots chg a0 ext_id KDev (or_introl eq_refl)) as [Ho1 Hs1].
+  fold a1 in Ho1, Hs1.
+  assert (Hticked1 : forall x, In x (s_ticked (ta_s a1)) <-> x = lv \/ In x (s_ticked s)).
+  { intros x. rewrite Hs1. unfold a0, s1. simpl. apply mark_ticked_In. }
+  simpl in Hnd. inversion Hnd as [|? ? Hnotin Hnd']; subst.
+  destruct (first_tick_loop f (on_tick_level cfg devf f) lv (l_conns l) time roots chg IH (l_order l) a1)
+    as [ob [Hob [Hcomps [Htimes [Hticked Hout]]]]].
+  - intros c k Hin. destruct (Hreal lv (or_introl eq_refl) c k Hin) as [He Hx]. split; [|split; assumption].
+    apply memb_In. unfold roots. rewrite !in_app_iff. right. right. right. left. apply in_map_iff. exists (c, k). auto.
+  - intros c lv' Hin. apply (Hdeep c lv' Hin).
+  - exact Hnd'.
+  - intros x Hx Hx2. apply Hticked1 in Hx2. destruct Hx2 as [->|Hx2]; [contradiction|].
+    apply (Hfresh x); [simpl; right; exact Hx | exact Hx2].
+  - intros x Hx. apply Hreal. simpl. right. exact Hx.
+  - set (a2 := fold_left (tick_step devf (on_tick_level cfg devf f) lv (l_conns l) time roots chg) (l_order l) a1) in *.
+    destruct (tick_step_pseudo (on_tick_level cfg devf f) lv (l_conns l) time roots chg a2 exp_id KDev (or_intror eq_refl)) as [Ho3 Hs3].
+    rewrite Ho3, Hs3. rewrite Hob, Ho1. unfold a0. simpl. split; [exact Hcomps|]. split; [exact Htimes|].
+    intros x. rewrite Hticked, Hticked1. simpl. intuition.
+Qed.
+
+(* the master's initial tick: every device at every depth is updated exactly once, at the
+   initial time, in dependency (configuration) order *)
+Lemma initial_tick_obs fuel initial s0 :
+  (forall c lv', In (c, KSys lv') (l_order (level_of cfg top)) -> deep_enough fuel lv') ->
+  NoDup (flat_map (sub_levels fuel) (l_order (level_of cfg top))) ->
+  (forall x, In x (flat_map (sub_levels fuel) (l_order (level_of cfg top))) -> ~ In x (s_ticked s0)) ->
+  real_ids top -> (forall x, In x (flat_map (sub_levels fuel) (l_order (level_of cfg top))) -> real_ids x) ->
+  let roots := map fst (l_order (level_of cfg top)) in
+  let '(s1, _, ob) := tick_level cfg devf fuel top initial roots [] s0 in
+  map obs_comp ob = flat_map (sub_devices fuel) (l_order (level_of cfg top)) /\
+  (forall o, In o ob -> obs_time o = initial).
+Proof.
+  intros Hdeep Hnd Hfresh Hreal0 Hreal roots. unfold tick_level, tick_with.
+  set (l := level_of cfg top) in *. unfold all_of. cbn [fold_left]. rewrite fold_left_app. cbn [fold_left].
+  set (a0 := {| ta_s := s0; ta_in := []; ta_touched := []; ta_out := []; ta_obs := [] |}).
+  set (a1 := tick_step devf (on_tick_level cfg devf fuel) top (l_conns l) initial roots [] a0 (ext_id, KDev)).
+  destruct (tick_step_pseudo (on_tick_level cfg devf fuel) top (l_conns l) initial roots [] a0 ext_id KDev (or_introl eq_refl)) as [Ho1 Hs1].
+  fold a1 in Ho1, Hs1.
+  destruct (first_tick_loop fuel (on_tick_level cfg devf fuel) top (l_conns l) initial roots [] (first_tick_all fuel) (l_order l) a1)
+    as [ob [Hob [Hcomps [Htimes [_ _]]]]].
+  - intros c k Hin. destruct (Hreal0 c k Hin) as [He Hx]. split; [|split; assumption].
+    apply memb_In. unfold roots. apply in_map_iff. exists (c, k). auto.
+  - exact Hdeep.
+  - exact Hnd.
+  - intros x Hx. rewrite Hs1. unfold a0. simpl. apply Hfresh. exact Hx.
+  - exact Hreal.
+  - set (a2 := fold_left (tick_step devf (on_tick_level cfg devf fuel) top (l_conns l) initial roots []) (l_order l) a1) in *.
+    destruct (tick_step_pseudo (on_tick_level cfg devf fuel) top (l_conns l) initial roots [] a2 exp_id KDev (or_intror eq_refl)) as [Ho3 _].
+    rewrite Ho3, Hob, Ho1. unfold a0. simpl. split; [exact Hcomps | exact Htimes].
+Qed.
+End S.
